@@ -163,9 +163,9 @@ def classify(C, X, f, s, obligations):
                 isint(la['lo']) and int(la['lo']) >= 0 and isint(lb['lo']) and int(lb['lo']) >= 0:
             return 'b:affine', True, "row-major index within %s" % Es
         return 'b?', False, "`%s` is not a row-major index bounded by the extent %s" % (idx, Es)
-    # 5. prefix row  P[s]+j
-    m = re.fullmatch(r'(\w+)\[(\w+)\]\+(\w+)', idx)
-    if m:
+    # 5. prefix row  P[s]+j   (s may itself be an expression, e.g. a stored term number)
+    m = re.fullmatch(r'(\w+)\[(.+)\]\+(\w+)', idx)
+    if m and m.group(2).count('[') == m.group(2).count(']'):
         pa, sv, jv = m.groups()
         lj = loop_of(s, jv)
         num = PREFIX.get(base)
@@ -181,6 +181,11 @@ def classify(C, X, f, s, obligations):
             obligations.add('O2')
             return 'f:stored-label', True, "spin label stored in %s (labels < len_state: O2)" % m.group(1)
         return 'f?', False, "a spin label read from %s indexes `%s` whose extent is %s, not len_state" % (m.group(1), base, Es)
+    # 6b. index read straight from a subgraph row: a stored term number
+    if re.fullmatch(r'subgraphs\[[^\]]+\]\[[^\]]+\]', idx):
+        if any(e == 'num_terms' for e in Es):
+            return 'f:stored-term', True, "term number stored in a subgraph row (written only from the term loop)"
+        return 'f?', False, "a stored term number indexes `%s` whose extent is %s, not num_terms" % (base, Es)
     # 7. identifiers
     if re.fullmatch(r'[A-Za-z_]\w*', idx):
         # offset-of-count
